@@ -321,6 +321,293 @@ pub open spec fn filter_flags(f: AttributeFilter) -> AdmFlags {
     ensures r == !adm_step(filter_flags(*old(f)), attr_type.0).0,
         filter_flags(*final(f)) == adm_step(filter_flags(*old(f)), attr_type.0).1,
 //@end
+
+// ---- message builder (real code of message.rs; contracts as in unit attrset)
+//@item! stun_rs :: mod message > struct StunMessageParameters
+//@item! stun_rs :: mod message > struct StunMessageBuilder
+//@item! stun_rs :: mod message > struct StunMessage
+impl Default for TransactionId {
+    #[verifier::external_body]
+    fn default() -> Self { unimplemented!() }
+}
+impl StunMessageBuilder {
+//@item stun_rs :: mod message > impl StunMessageBuilder > fn new
+//@spec
+    ensures r.0.method == method, r.0.class == class, r.0.transaction_id is None, r.0.attributes@.len() == 0,
+//@end
+//@item stun_rs :: mod message > impl StunMessageBuilder > fn with_transaction_id
+//@rules R5
+//@spec
+    ensures r.0.method == self.0.method, r.0.class == self.0.class, r.0.transaction_id == Some(transaction_id),
+        r.0.attributes@ == self.0.attributes@,
+//@end
+//@item stun_rs :: mod message > impl StunMessageBuilder > fn with_attribute
+//@rules R5
+//@sig
+pub fn with_attribute(self, attribute: StunAttribute) -> (r: Self)
+//@sub "attribute.into()" => "attribute"
+//@spec
+    ensures r.0.method == self.0.method, r.0.class == self.0.class, r.0.transaction_id == self.0.transaction_id,
+        r.0.attributes@ == self.0.attributes@.push(attribute),
+//@end
+//@item stun_rs :: mod message > impl StunMessageBuilder > fn build
+//@spec
+    ensures r.method == self.0.method, r.class == self.0.class, r.attributes@ == self.0.attributes@,
+        self.0.transaction_id is Some ==> r.transaction_id == self.0.transaction_id->Some_0,
+//@end
+}
+
+// ---- what decoding means (C01/C03/C09/C18): a function of the bytes and the options
+// TLV starts of the attribute area; None if the area is not an exact sequence of padded TLVs
+pub open spec fn walk(body: Seq<u8>, pos: int) -> Option<Seq<int>>
+    decreases body.len() - pos
+{
+    if pos < 0 || pos > body.len() { None }
+    else if pos == body.len() { Some(Seq::<int>::empty()) }
+    else if !tlv_ok(body, pos) { None }
+    else { match walk(body, tlv_next(body, pos)) { Some(r) => Some(seq![pos] + r), None => None } }
+}
+pub open spec fn types_at(body: Seq<u8>, sts: Seq<int>) -> Seq<u16> {
+    Seq::new(sts.len(), |i: int| tlv_type(body, sts[i]) as u16)
+}
+// the attribute the decoder builds for the TLV at `st`: the registered handler's result, or Unknown (with or without data)
+pub open spec fn attr_at(b: Seq<u8>, st: int, unknown_data: bool) -> Option<StunAttribute> {
+    let body = b.subrange(20, 20 + be16(b.subrange(2, 4)));
+    let t = tlv_type(body, st) as u16;
+    let v = body.subrange(st + 4, st + 4 + tlv_len(body, st));
+    if registered(t) { dec_attr(t, v, b.subrange(0, 20 + st)) }
+    else { Some(unknown_attr(t, if unknown_data { Some(v) } else { None })) }
+}
+pub open spec fn opt_validation(c: Option<DecoderContext>) -> bool { c is Some && c->Some_0.validation }
+pub open spec fn opt_unknown_data(c: Option<DecoderContext>) -> bool { c is Some && c->Some_0.unknown_data }
+pub open spec fn opt_not_ignore(c: Option<DecoderContext>) -> bool { c is Some && c->Some_0.not_ignore }
+// the attributes of the decoded message after the first k TLVs; None as soon as a handler rejects its value (every TLV is
+// parsed, admitted or not) or an *included* verifiable attribute fails validation
+pub open spec fn dec_upto(b: Seq<u8>, sts: Seq<int>, k: int, c: Option<DecoderContext>) -> Option<Seq<StunAttribute>>
+    decreases k
+{
+    let body = b.subrange(20, 20 + be16(b.subrange(2, 4)));
+    if k <= 0 { Some(Seq::<StunAttribute>::empty()) }
+    else {
+        match dec_upto(b, sts, k - 1, c) {
+            None => None,
+            Some(acc) => match attr_at(b, sts[k - 1], opt_unknown_data(c)) {
+                None => None,
+                Some(a) => {
+                    if opt_not_ignore(c) || admitted(types_at(body, sts), k - 1) {
+                        if needs_validation(c, a) && !attr_valid(a, b, c->Some_0) { None } else { Some(acc.push(a)) }
+                    } else { Some(acc) }
+                },
+            },
+        }
+    }
+}
+pub open spec fn decoded(b: Seq<u8>, c: Option<DecoderContext>) -> Option<Seq<StunAttribute>> {
+    if header_ok(b) && b.len() >= 20 + be16(b.subrange(2, 4)) {
+        match walk(b.subrange(20, 20 + be16(b.subrange(2, 4))), 0) {
+            Some(sts) => dec_upto(b, sts, sts.len() as int, c),
+            None => None,
+        }
+    } else { None }
+}
+// consecutive TLV starts from 0 up to position p
+pub open spec fn walk_prefix(body: Seq<u8>, sts: Seq<int>, p: int) -> bool {
+    &&& (sts.len() == 0 ==> p == 0)
+    &&& (sts.len() > 0 ==> sts[0] == 0 && p == tlv_next(body, sts[sts.len() - 1]))
+    &&& (forall|i: int| 0 <= i < sts.len() ==> tlv_ok(body, #[trigger] sts[i]))
+    &&& (forall|i: int| 0 <= i < sts.len() - 1 ==> #[trigger] sts[i + 1] == tlv_next(body, sts[i]))
+}
+proof fn lemma_walk_join(body: Seq<u8>, sts: Seq<int>, p: int)
+    requires walk_prefix(body, sts, p), 0 <= p <= body.len(),
+    ensures walk(body, 0) == (match walk(body, p) { Some(r) => Some(sts + r), None => None::<Seq<int>> }),
+    decreases sts.len(),
+{
+    if sts.len() == 0 {
+        assert(sts + walk(body, p)->Some_0 =~= walk(body, p)->Some_0);
+    } else {
+        let last = sts[sts.len() - 1];
+        let init = sts.subrange(0, sts.len() - 1);
+        assert(walk_prefix(body, init, last)) by {
+            if init.len() > 0 { assert(init[init.len() - 1] == sts[sts.len() - 2]); assert(sts[sts.len() - 2 + 1] == tlv_next(body, sts[sts.len() - 2])); }
+            else { assert(sts[0] == 0); }
+        }
+        lemma_walk_join(body, init, last);
+        assert(tlv_ok(body, last));
+        assert(last < body.len());
+        match walk(body, p) {
+            Some(r) => { assert(init + (seq![last] + r) =~= sts + r); },
+            None => {},
+        }
+    }
+}
+proof fn lemma_admitted_prefix(ts: Seq<u16>, t: u16, i: int)
+    requires 0 <= i < ts.len(),
+    ensures admitted(ts.push(t), i) == admitted(ts, i),
+{
+    assert forall|k: int| seen(ts.push(t), i, k) == seen(ts, i, k) by {
+        if seen(ts.push(t), i, k) {
+            let j = choose|j: int| 0 <= j < i && kind_of(#[trigger] ts.push(t)[j]) == k;
+            assert(ts[j] == ts.push(t)[j]);
+        }
+        if seen(ts, i, k) {
+            let j = choose|j: int| 0 <= j < i && kind_of(#[trigger] ts[j]) == k;
+            assert(ts.push(t)[j] == ts[j]);
+        }
+    }
+    assert(ts.push(t)[i] == ts[i]);
+}
+proof fn lemma_dec_upto_prefix(b: Seq<u8>, sts: Seq<int>, x: int, k: int, c: Option<DecoderContext>)
+    requires 0 <= k <= sts.len(),
+    ensures dec_upto(b, sts.push(x), k, c) == dec_upto(b, sts, k, c),
+    decreases k,
+{
+    if k > 0 {
+        let body = b.subrange(20, 20 + be16(b.subrange(2, 4)));
+        lemma_dec_upto_prefix(b, sts, x, k - 1, c);
+        assert(sts.push(x)[k - 1] == sts[k - 1]);
+        assert(types_at(body, sts.push(x)) =~= types_at(body, sts).push(tlv_type(body, x) as u16));
+        lemma_admitted_prefix(types_at(body, sts), tlv_type(body, x) as u16, k - 1);
+    }
+}
+
+proof fn lemma_dec_upto_prefix_seq(b: Seq<u8>, sts: Seq<int>, r: Seq<int>, k: int, c: Option<DecoderContext>)
+    requires 0 <= k <= sts.len(),
+    ensures dec_upto(b, sts + r, k, c) == dec_upto(b, sts, k, c),
+    decreases r.len(),
+{
+    if r.len() == 0 {
+        assert(sts + r =~= sts);
+    } else {
+        let r0 = r.subrange(0, r.len() - 1);
+        lemma_dec_upto_prefix_seq(b, sts, r0, k, c);
+        assert(sts + r =~= (sts + r0).push(r[r.len() - 1]));
+        lemma_dec_upto_prefix(b, sts + r0, r[r.len() - 1], k, c);
+    }
+}
+proof fn lemma_dec_none_mono(b: Seq<u8>, sts: Seq<int>, k: int, m: int, c: Option<DecoderContext>)
+    requires 0 <= k <= m, dec_upto(b, sts, k, c) is None,
+    ensures dec_upto(b, sts, m, c) is None,
+    decreases m - k,
+{
+    if k < m { lemma_dec_none_mono(b, sts, k, m - 1, c); }
+}
+proof fn lemma_flags_prefix(ts: Seq<u16>, t: u16, i: int)
+    requires 0 <= i <= ts.len(),
+    ensures flags_at(ts.push(t), i) == flags_at(ts, i),
+    decreases i,
+{
+    if i > 0 { lemma_flags_prefix(ts, t, i - 1); assert(ts.push(t)[i - 1] == ts[i - 1]); }
+}
+// a failing step makes the whole decoding fail (whatever follows)
+proof fn lemma_step_fail(b: Seq<u8>, sts: Seq<int>, p: int, c: Option<DecoderContext>)
+    requires header_ok(b), b.len() >= 20 + be16(b.subrange(2, 4)),
+        walk_prefix(b.subrange(20, 20 + be16(b.subrange(2, 4))), sts, p), tlv_ok(b.subrange(20, 20 + be16(b.subrange(2, 4))), p),
+        dec_upto(b, sts.push(p), sts.len() as int + 1, c) is None,
+    ensures decoded(b, c) is None,
+{
+    let body = b.subrange(20, 20 + be16(b.subrange(2, 4)));
+    let s1 = sts.push(p);
+    assert(walk_prefix(body, s1, tlv_next(body, p))) by {
+        assert forall|i: int| 0 <= i < s1.len() - 1 implies #[trigger] s1[i + 1] == tlv_next(body, s1[i]) by {
+            if i + 1 < sts.len() { assert(sts[i + 1] == tlv_next(body, sts[i])); }
+        }
+    }
+    lemma_walk_join(body, s1, tlv_next(body, p));
+    match walk(body, tlv_next(body, p)) {
+        Some(r) => {
+            lemma_dec_upto_prefix_seq(b, s1, r, s1.len() as int, c);
+            lemma_dec_none_mono(b, s1 + r, s1.len() as int, (s1 + r).len() as int, c);
+        },
+        None => {},
+    }
+}
+//@item! stun_rs :: mod context > struct MessageDecoder
+impl MessageDecoder {
+//@item stun_rs :: mod context > impl MessageDecoder > fn decode
+//@tags C03 C09 C18 C01
+//@sub "handler(ctx)" => "handler.call(ctx)"
+//@closure 1
+|error: StunError| -> (e: StunDecodeError)
+    ensures true,
+//@stmt "let mut iter ="
+    let ghost b = buffer@;
+    let ghost body = attributes.0@;
+    let ghost mut sts: Seq<int> = Seq::empty();
+    let ghost mut cur: int = 0;
+    proof {
+        let v = raw_msg.header.msg_type;
+        assert(v < 16384u16 ==> (v & 0x3FFFu16) == v) by (bit_vector);
+    }
+//@stmt "while let"
+    proof {
+        assert(body == b.subrange(20, 20 + be16(b.subrange(2, 4))));
+        assert(flags_at(types_at(body, sts), 0) == (AdmFlags { mi: false, sha: false, fp: false }));
+        lemma_walk_join(body, sts, 0);
+    }
+//@loop 1
+    invariant
+        b == buffer@, header_ok(b), b.len() >= 20 + be16(b.subrange(2, 4)), size == 20 + be16(b.subrange(2, 4)),
+        body == b.subrange(20, 20 + be16(b.subrange(2, 4))),
+        iter.buffer@ == body, iter.pos <= body.len(), index == 20 + iter.pos, position == sts.len(), position <= iter.pos,
+        cur == iter.pos,
+        walk_prefix(body, sts, cur),
+        walk(body, 0) == (match walk(body, cur) { Some(r) => Some(sts + r), None => None::<Seq<int>> }),
+        filter_flags(filter) == flags_at(types_at(body, sts), sts.len() as int),
+        ignore == !opt_not_ignore(self.ctx),
+        dec_upto(b, sts, sts.len() as int, self.ctx) == Some(builder.0.attributes@),
+        builder.0.method.0 == rfc_method_of((be16(b) % 16384) as u16), spec_class_bits(builder.0.class) == rfc_class_of((be16(b) % 16384) as u16),
+        builder.0.transaction_id is Some && builder.0.transaction_id->Some_0.0@ == b.subrange(8, 20),
+    ensures
+        iter.pos == body.len(),
+    decreases body.len() - iter.pos,
+//@loopstart 1
+    let ghost p = cur;
+    let ghost k = sts.len() as int;
+    let ghost s1 = sts.push(p);
+    let ghost acc0 = builder.0.attributes@;
+    proof {
+        assert(tlv_ok(body, p) && iter.pos == tlv_next(body, p));
+        lemma_dec_upto_prefix(b, sts, p, k, self.ctx);
+        assert(s1[k] == p);
+        assert(types_at(body, s1) =~= types_at(body, sts).push(tlv_type(body, p) as u16));
+        lemma_flags_prefix(types_at(body, sts), tlv_type(body, p) as u16, k);
+        lemma_flags_admit(types_at(body, s1), k);
+        if dec_upto(b, s1, k + 1, self.ctx) is None { lemma_step_fail(b, sts, p, self.ctx); }
+        assert(buffer@.subrange(0, index as int) == b.subrange(0, 20 + p));
+        assert(raw_attr.value@ == body.subrange(p + 4, p + 4 + tlv_len(body, p)));
+        assert(raw_attr.attr_type == tlv_type(body, p) as u16);
+    }
+//@loopend 1
+    proof {
+        assert(walk_prefix(body, s1, iter.pos as int)) by {
+            assert forall|i: int| 0 <= i < s1.len() - 1 implies #[trigger] s1[i + 1] == tlv_next(body, s1[i]) by {
+                if i + 1 < sts.len() { assert(sts[i + 1] == tlv_next(body, sts[i])); }
+            }
+        }
+        lemma_walk_join(body, s1, iter.pos as int);
+        sts = s1;
+        cur = iter.pos as int;
+    }
+//@tail
+    proof {
+        assert(walk(body, cur) == Some(Seq::<int>::empty()));
+        assert(sts + Seq::<int>::empty() =~= sts);
+        assert(walk(body, 0) == Some(sts));
+    }
+//@spec
+    ensures
+        // C03/C18: success, the consumed size and the message are functions of the first 20 + length bytes and the options
+        r is Ok <==> decoded(buffer@, self.ctx) is Some,
+        r is Ok ==> {
+            let n = 20 + be16(buffer@.subrange(2, 4));
+            &&& r->Ok_0.1 == n && n <= buffer@.len() && header_ok(buffer@)
+            &&& r->Ok_0.0.attributes@ == decoded(buffer@, self.ctx)->Some_0
+            &&& r->Ok_0.0.method.0 == rfc_method_of((be16(buffer@) % 16384) as u16)
+            &&& spec_class_bits(r->Ok_0.0.class) == rfc_class_of((be16(buffer@) % 16384) as u16)
+            &&& r->Ok_0.0.transaction_id.0@ == buffer@.subrange(8, 20)
+        },
+//@end
+}
 proof fn vx_sentinel() ensures false {}
 } // verus!
 fn main() {}
